@@ -26,15 +26,32 @@ def served_service(asce, ctx, msg):
     asce._served.append((ctx.id, str(ctx.sop_class), str(ctx.supported_ts)))
 
 
-def make_rq(proposals, peer_max, called='CALLED', calling='CALLING', extra_subs=()):
+def place_maxlen(subs, maxlen, pos):
+    """The peer's Maximum Length sub-item among its other user-information sub-items: PS3.7 Annex D fixes no order.
+    pos: 'first' | 'second' | 'last' | 'absent' (a peer that announces nothing: no limit)"""
+    subs = list(subs)
+    if pos == 'first':
+        return [maxlen] + subs
+    if pos == 'second' and subs:
+        return subs[:1] + [maxlen] + subs[1:]
+    if pos == 'absent':
+        return subs
+    return subs + [maxlen]
+
+
+MAXLEN_POS = ['first', 'second', 'last', 'first', 'absent', 'last', 'second']
+
+
+def make_rq(proposals, peer_max, called='CALLED', calling='CALLING', extra_subs=(), maxlen_pos='first'):
     from pynetdicom2 import pdu, userdataitems
     items = [pdu.ApplicationContextItem('1.2.840.10008.3.1.1.1')]
     for cid, abs_, tss in proposals:
         items.append(pdu.PresentationContextItemRQ(cid, pdu.AbstractSyntaxSubItem(abs_),
                                                    [pdu.TransferSyntaxSubItem(t) for t in tss]))
-    subs = [userdataitems.MaximumLengthSubItem(peer_max), userdataitems.ImplementationClassUIDSubItem('1.2.3.4')]
-    subs += list(extra_subs)
-    items.append(pdu.UserInformationItem(subs))
+    subs = [userdataitems.ImplementationClassUIDSubItem('1.2.3.4')] + list(extra_subs)
+    if maxlen_pos != 'first':
+        subs.append(userdataitems.ImplementationVersionNameSubItem('OTHER_TK_1'))
+    items.append(pdu.UserInformationItem(place_maxlen(subs, userdataitems.MaximumLengthSubItem(peer_max), maxlen_pos)))
     return pdu.AAssociateRqPDU(called, calling, items)
 
 
@@ -83,7 +100,7 @@ def observe_accept(served, ts, own, proposals, peer_max, variant=0):
             if abs_ not in seen_abs and (k + variant) % 2 == 0:
                 seen_abs.append(abs_)
                 extra.append(userdataitems.ScpScuRoleSelectionSubItem(abs_, (variant + k) % 2, 1 - (variant // 2) % 2))
-    rq = make_rq(proposals, peer_max, called, calling, extra)
+    rq = make_rq(proposals, peer_max, called, calling, extra, MAXLEN_POS[variant % 7] if variant else 'first')
     rq_model = pm.from_impl(rq)
     err = None
     # through _establish(): the request comes from the provider, the application hook sees it, accept() answers
@@ -218,7 +235,10 @@ def make_ac(rq, answers, peer_max, first_sub=None):
     items = [pdu.ApplicationContextItem('1.2.840.10008.3.1.1.1')]
     for cid, (res, ts) in answers:
         items.append(pdu.PresentationContextItemAC(cid, res, pdu.TransferSyntaxSubItem(ts)))
-    items.append(pdu.UserInformationItem([userdataitems.MaximumLengthSubItem(peer_max)]))
+    pos = ['first', 'second', 'first', 'last', 'first', 'absent'][(peer_max + len(items)) % 6]
+    others = [] if pos == 'first' else [userdataitems.ImplementationClassUIDSubItem('1.2.3.4.5'),
+                                        userdataitems.ImplementationVersionNameSubItem('OTHER_TK_1')]
+    items.append(pdu.UserInformationItem(place_maxlen(others, userdataitems.MaximumLengthSubItem(peer_max), pos)))
     return pdu.AAssociateAcPDU(rq.called_ae_title, rq.calling_ae_title, items)
 
 
